@@ -1,9 +1,15 @@
 package sim
 
 import (
+	"bytes"
+	"compress/gzip"
 	"fmt"
+	"io"
 	"sort"
+	"strconv"
 	"strings"
+
+	"github.com/ulikunitz/xz"
 
 	"github.com/evolbioinfo/goalign/align"
 	"github.com/evolbioinfo/goalign/verifrt"
@@ -36,6 +42,8 @@ type C16Case struct {
 	RefAt     int      `json:"ref_at,omitempty"`       // rank of the ORF among the references
 	RunFirst  bool     `json:"run_first,omitempty"`    // the run under test comes first, before the one-worker reference and the ORF search of the harness
 	RefsAlike bool     `json:"refs_alike,omitempty"`   // the further references are variants of the ORF (no claim about which one a sequence matches best)
+	Cli       string   `json:"cli,omitempty"`          // "", or the extension of the output files of a command-line execution with the same options ("plain", ".gz", ".xz")
+	CliOuts   int      `json:"cli_outs,omitempty"`     // which of the optional outputs the command line is asked for: 1 protein, 2 codons (phasent), 4 log
 	Choices   []int    `json:"choices"`
 }
 
@@ -46,7 +54,7 @@ func init() { Register(c16{}) }
 func (c16) ID() string       { return "C16" }
 func (c16) New() interface{} { return &C16Case{} }
 func (c16) Rule() string {
-	return "each run: one ORF (ATG, 10-40 codons of >= 8 amino acids, stop) and 1-70 sequences = random flank + copy of the ORF (substitutions 0-15%, occasional 3-nt indels, some reverse-complemented, at least one verbatim) + random flank; reference given (in 4 cases of 10 with 1-3 further reference ORFs, the ORF at a random rank) or searched, translate/reverse/cut-end on or off, 3 genetic codes, 1-32 workers; every synchronisation operation of Phase's goroutines and every take of the consumer is a seeded scheduling choice; a quarter of the runs contain a 2-nt sequence that makes translation fail inside a worker. Distinct = distinct hash of the released (goroutine, site) sequence; non-trivial = at least 2 workers and at least 3 sequences."
+	return "each run: one ORF (ATG, 10-40 codons of >= 8 amino acids, stop) and 1-70 sequences = random flank + copy of the ORF (substitutions 0-15%, occasional 3-nt indels, some reverse-complemented, at least one verbatim) + random flank; reference given (in 4 cases of 10 with 1-3 further reference ORFs, the ORF at a random rank) or searched, translate/reverse/cut-end on or off, 3 genetic codes, 1-32 workers; every synchronisation operation of Phase's goroutines and every take of the consumer is a seeded scheduling choice; a quarter of the runs contain a 2-nt sequence that makes translation fail inside a worker. Distinct = distinct hash of the released (goroutine, site) sequence; non-trivial = at least 2 workers and at least 3 sequences. One run in eight that ends without an error is followed by `goalign phase` / `phasent` executed through the command tree in the same process with the options of the case, a random subset of the optional outputs and plain / .gz / .xz files: the files must hold the rows the library call kept, in the order of the input."
 }
 
 var c16Codons = []string{"GAA", "TTC", "ATC", "CTG", "CCG", "CAG", "GCT", "AAA", "GGT", "CAT", "CGT", "TCT", "ACC", "GTT", "TGG", "TAC", "GAT", "AAC"}
@@ -96,6 +104,10 @@ func (c16) Gen(rs uint64, tier string, race bool) interface{} {
 		c.MatchCut = &v
 	}
 	c.Scores = r.Chance(0.15)
+	if r.Chance(0.12) {
+		c.Cli = r.PickS("plain", "plain", ".gz", ".gz", ".xz")
+		c.CliOuts = r.Pick(7, 7, 1, 2, 3, 4, 5, 6, 0)
+	}
 	if c.GiveRef && r.Chance(0.4) {
 		// "reference ORFs": further references beside the ORF. Either short unrelated ones (at most a third of the
 		// ORF's length: whatever the scores, none can beat the ORF's exact copy) or variants of the ORF.
@@ -379,6 +391,12 @@ func (c16) Run(ctx *Ctx, ci interface{}) (o Outcome) {
 
 	cfg := SchedCfg{Seed: c.Seed, Policy: c.Policy, Choices: c.Choices, Strict: ctx.Strict, MaxSteps: budget}
 	var run phaseRun
+	cliEligible := false
+	defer func() {
+		if c.Cli != "" && cliEligible && o.V == nil && ctx.Diverged == "" {
+			c.runCLI(ctx, &o, run.results)
+		}
+	}()
 	if c.RunFirst {
 		// a process that has phased nothing yet starts with several workers
 		run = c.runPhase(ctx, c.Cpus, cfg)
@@ -545,6 +563,7 @@ func (c16) Run(ctx *Ctx, ci interface{}) (o Outcome) {
 		o.Add("fault_translate_error_delivered", 1)
 		return
 	}
+	cliEligible = nerr == 0
 	if nerr > 0 {
 		refErr := 0
 		for _, r := range ref.results {
@@ -801,4 +820,175 @@ func (c16) Shrink(ci interface{}) []interface{} {
 		add(func(n *C16Case) bool { n.Code = 0; return true })
 	}
 	return out
+}
+
+// runCLI executes `goalign phase` (or `phasent`) in this process with the options of the case and holds what it
+// writes to the results the library call delivered: one row per sequence that was not removed, in the order of
+// the input, under its name, in each output file; one log line per input sequence with the reported position.
+func (c *C16Case) runCLI(ctx *Ctx, o *Outcome, results []phRes) {
+	_, _, names, all := c.bags()
+	files := map[string]string{"in.fa": fastaOf(names, all)}
+	ext := c.Cli
+	if ext == "plain" {
+		ext = ""
+	}
+	sub := "phasent"
+	if c.Translate {
+		sub = "phase"
+	}
+	args := []string{sub, "--unaligned", "-i", "in.fa", "-o", "out.nt.fa" + ext,
+		"--genetic-code", []string{"standard", "mitov", "mitoi"}[c.Code%3], "-t", fmt.Sprint(c.Cpus),
+		"--reverse=" + fmt.Sprint(c.Reverse), "--cut-end=" + fmt.Sprint(c.CutEnd)}
+	if c.CliOuts&1 != 0 {
+		args = append(args, "--aa-output", "out.aa.fa"+ext)
+	}
+	if c.CliOuts&4 != 0 {
+		args = append(args, "-l", "phase.log")
+	}
+	if !c.Translate && c.CliOuts&2 != 0 {
+		args = append(args, "--nt-output", "out.codon.fa"+ext)
+	}
+	// the library's defaults where the case sets nothing (the command line has defaults of its own)
+	lc, mc := 0.8, 0.5
+	if c.LenCut != nil {
+		lc = *c.LenCut
+	}
+	if c.MatchCut != nil {
+		mc = *c.MatchCut
+	}
+	args = append(args, "--len-cutoff", strconv.FormatFloat(lc, 'g', -1, 64), "--match-cutoff", strconv.FormatFloat(mc, 'g', -1, 64))
+	if c.Scores {
+		args = append(args, "--match", "1", "--mismatch", "-1", "--gap-open", "-8", "--gap-extend", "-1")
+	}
+	if c.GiveRef {
+		orfs, _, _, _ := c.bags()
+		var rn, rs []string
+		for _, q := range orfs.Sequences() {
+			rn = append(rn, q.Name())
+			rs = append(rs, q.Sequence())
+		}
+		files["ref.fa"] = fastaOf(rn, rs)
+		args = append(args, "--ref-orf", "ref.fa")
+	}
+	res := runInProc(ctx, args, files, 1, 1700000000e9)
+	o.Add("command_line_executions", 1)
+	what := "goalign " + strings.Join(args, " ")
+	for _, p := range res.sr.Panics {
+		if p.Exit < 0 {
+			o.Fail("panic:cli:"+sub, "%s: goroutine g%d panicked: %s\n%s", what, p.Gid, p.Panic, p.Stack)
+			return
+		}
+	}
+	if res.sr.Deadlock || res.sr.Budget {
+		o.Fail("hang:cli:"+sub, "%s does not return: %s", what, res.sr.Stacks)
+		return
+	}
+	if res.err != nil || res.exit >= 0 {
+		o.Fail("cli-differs:error:"+sub, "%s fails (%v, exit %d); the library call with the same options delivered %d results and no error", what, res.err, res.exit, len(results))
+		return
+	}
+	byName := map[string]phRes{}
+	for _, r := range results {
+		byName[r.Name] = r
+	}
+	read := func(name string) (ns, ss []string, ok bool) {
+		b, have := res.files[name]
+		if !have {
+			o.Fail("cli-differs:missing-output:"+sub, "%s leaves no file %s", what, name)
+			return nil, nil, false
+		}
+		switch {
+		case strings.HasSuffix(name, ".gz"):
+			zr, err := gzip.NewReader(bytes.NewReader(b))
+			if err == nil {
+				b, err = io.ReadAll(zr)
+			}
+			if err != nil {
+				o.Fail("cli-differs:unreadable-output:"+sub+":"+c.Cli, "%s: %s (%d bytes) is not a complete gzip file: %v", what, name, len(res.files[name]), err)
+				return nil, nil, false
+			}
+		case strings.HasSuffix(name, ".xz"):
+			zr, err := xz.NewReader(bytes.NewReader(b))
+			if err == nil {
+				b, err = io.ReadAll(zr)
+			}
+			if err != nil {
+				o.Fail("cli-differs:unreadable-output:"+sub+":"+c.Cli, "%s: %s (%d bytes) is not a complete xz file: %v", what, name, len(res.files[name]), err)
+				return nil, nil, false
+			}
+		}
+		ns, ss = parseFastaText(b)
+		return ns, ss, true
+	}
+	outs := []struct {
+		file string
+		get  func(phRes) string
+	}{{"out.nt.fa" + ext, func(r phRes) string { return r.Nt }}}
+	if c.CliOuts&1 != 0 {
+		outs = append(outs, struct {
+			file string
+			get  func(phRes) string
+		}{"out.aa.fa" + ext, func(r phRes) string { return r.Aa }})
+	}
+	if !c.Translate && c.CliOuts&2 != 0 {
+		outs = append(outs, struct {
+			file string
+			get  func(phRes) string
+		}{"out.codon.fa" + ext, func(r phRes) string { return r.Codon }})
+	}
+	for _, out := range outs {
+		gn, gs, ok := read(out.file)
+		if !ok {
+			return
+		}
+		var wn, ws []string
+		for _, n := range names {
+			if r, ok := byName[n]; ok && !r.Removed {
+				wn = append(wn, n)
+				ws = append(ws, out.get(r))
+			}
+		}
+		if strings.Join(gn, "\x00") != strings.Join(wn, "\x00") {
+			o.Fail("cli-differs:rows:"+sub, "%s: %s holds rows %q; the sequences the library call kept are, in the order of the input, %q", what, out.file, gn, wn)
+			return
+		}
+		for i := range wn {
+			if gs[i] != ws[i] {
+				o.Fail("cli-differs:content:"+sub, "%s: %s gives %s as %q; the library call with the same options gives %q", what, out.file, wn[i], clip(gs[i], 80), clip(ws[i], 80))
+				return
+			}
+		}
+	}
+	if c.CliOuts&4 == 0 {
+		o.Add("command_line_outputs_equal_library_results", 1)
+		return
+	}
+	// the log: a header of two lines, then one line per input sequence
+	lines := strings.Split(strings.TrimRight(string(res.files["phase.log"]), "\n"), "\n")
+	got := map[string]string{}
+	for _, l := range lines {
+		f := strings.Split(l, "\t")
+		if len(f) >= 3 {
+			if _, dup := got[f[0]]; dup {
+				o.Fail("cli-differs:log:"+sub, "%s: the log has two lines for %s", what, f[0])
+				return
+			}
+			got[f[0]] = f[2]
+		}
+	}
+	for _, n := range names {
+		r, ok := byName[n]
+		if !ok {
+			continue
+		}
+		want := fmt.Sprint(r.Pos)
+		if r.Removed {
+			want = "Removed"
+		}
+		if got[n] != want {
+			o.Fail("cli-differs:log:"+sub, "%s: the log reports %q as start position of %s, the library call reports %s", what, got[n], n, want)
+			return
+		}
+	}
+	o.Add("command_line_outputs_equal_library_results", 1)
 }
